@@ -113,7 +113,7 @@ def do_import(wt, prop, tag=""):
       f.write("\n")
 
 
-def do_import_refactor(wt, prop):
+def do_import_refactor(wt, prop, tag=""):
   """Behaviour-preserving refactorings (sub-agent deliverables): confirm the
   baseline, run the property's check (and, with --all-checks, every check)
   against the refactored tree and expect SILENCE; store under refactors/."""
@@ -121,7 +121,7 @@ def do_import_refactor(wt, prop):
   for patch in sorted(glob.glob(os.path.join(wt, "SEED", "patch*.diff"))):
     k = os.path.basename(patch)[5:-5]
     notes = os.path.join(wt, "SEED", "notes%s.md" % k)
-    rid = "%s-ref%s" % (prop.lower(), k)
+    rid = "%s-ref%s%s" % (prop.lower(), tag, k)
     print("==", rid)
     sh(["git", "checkout", "--", "."], cwd=wt)
     rc, out = sh(["git", "apply", patch], cwd=wt)
@@ -264,7 +264,7 @@ def main():
   if a.cmd == "run-refactors":
     do_run_refactors(a.args, a.tier)
   elif a.cmd == "import-refactor":
-    do_import_refactor(a.args[0], a.args[1].upper())
+    do_import_refactor(a.args[0], a.args[1].upper(), a.tag)
   elif a.cmd == "import":
     do_import(a.args[0], a.args[1].upper(), a.tag)
   else:
